@@ -322,4 +322,28 @@ theorem blake2_call_eq {c V} (hp : Pair c V) (sp : Spec.Blake2.Params) (hv : sp.
   rw [absorb_fold V hbbv _ _ _ _ (by rw [hkk]; rcases hbbv with h | h <;> rw [h] at hkk <;> (split at hkk <;> omega)), hkk]
   simp only [Spec.Blake2.padBlock, ← hbb]
 
+theorem flatMap_length_const {α β} (f : α → List β) (n : Nat) : ∀ (l : List α), (∀ x ∈ l, (f x).length = n) →
+    (l.flatMap f).length = l.length * n
+  | [], _ => by simp
+  | x :: xs, h => by
+    rw [List.flatMap_cons, List.length_append, h x (by simp), flatMap_length_const f n xs (fun y hy => h y (by simp [hy])),
+      List.length_cons, Nat.add_mul]
+    omega
+
+theorem F_length (V : Spec.Blake2.Variant) (h m : List (BitVec V.w)) (t : Nat) (f : Bool) :
+    (Spec.Blake2.F V h m t f).length = 8 := by simp [Spec.Blake2.F]
+
+/-- the specified digest has exactly the requested length -/
+theorem hash_length (V : Spec.Blake2.Variant) (hw : V.w = 32 ∨ V.w = 64) (sp : Spec.Blake2.Params) (hv : sp.valid V)
+    (M : List Nat) : (Spec.Blake2.hash V sp M).length = sp.digestLength := by
+  have hbb : V.bb = 64 ∨ V.bb = 128 := by
+    rcases hw with h | h <;> simp [Spec.Blake2.Variant.bb, h]
+  unfold Spec.Blake2.hash Spec.Blake2.output
+  rw [absorb_fold V hbb _ _ _ _ (by rcases hbb with h | h <;> rw [h] <;> (split <;> omega))]
+  rw [List.length_take, flatMap_length_const (Spec.Blake2.wordBytes V) (V.w / 8) _ (by
+    intro x _; simp [Spec.Blake2.wordBytes, leBytes_map]), F_length]
+  obtain ⟨_, h2, _⟩ := hv
+  simp only [Spec.Blake2.Variant.maxOut] at h2
+  omega
+
 end Proofs.Lemmas.Blake2End
